@@ -23,6 +23,9 @@ CG = "hta.common.trace_call_graph"
 
 
 def run(db, chk) -> None:
+    from ..specs.discipline import check_stateless
+    check_stateless(db, chk, "C16.R-stateless", ['hta.analyzers.cuda_kernel_analysis'])      # the result is a function of the arguments: no state kept between calls, caller's Trace untouched
+    chk.floor("C16.R-stateless", 4)
     m = db.mod(CK)
     _roots_and_patterns(db, chk, m)
     _results(db, chk, m)
